@@ -2,7 +2,7 @@
    Proved so far; the composition over whole pictures is tied by execution against the reference
    reconstruction (see DESIGN.md). *)
 From H263V Require Import base.Prelude spec.SpecRecon model.Types model.Reader model.Header model.Syntax model.Recon model.Decoder proofs.MvSpec.
-From H263V Require Import model.Tables spec.SpecTables proofs.VlcTables proofs.PlaneShape proofs.GatherSpec spec.SpecHeader proofs.BlockRoundTrip proofs.MacroblockRoundTrip proofs.PictureRoundTrip.
+From H263V Require Import model.Tables spec.SpecTables proofs.VlcTables proofs.PlaneShape proofs.GatherSpec spec.SpecHeader proofs.BlockRoundTrip proofs.MacroblockRoundTrip proofs.PictureRoundTrip model.F32 proofs.IdctPlacement proofs.IntraPicture proofs.GatherPicture proofs.PredictedPicture.
 
 (* each vector component = predictor + differential reduced modulo 64 half samples into -32..31 (= -16..15.5) *)
 Theorem C03_vector_wrap : forall cur running p d is_x,
@@ -79,7 +79,48 @@ Theorem C03_zero_vector_copies : forall w h src px py t,
     forall x y, 0 <= x < w -> 0 <= y < h -> at_ t' x y = if in_block px py 8 8 x y then at_ src x y else at_ t x y.
 Proof. exact gather_block_zero_vector. Qed.
 
+(* THE COMPOSITION, from bits to samples, for a predicted or disposable picture whose header has been parsed, whose body is the
+   encoding of macroblocks given by field values and whose reference picture has the same size: decoding succeeds, stops exactly
+   behind the picture, the planes have the signalled size, and every sample is
+
+       clip_0..255 ( prediction + transform value of its coefficient block )
+
+   where the prediction (`luma_after` / `chroma_after` over a zero plane) is, for a sample of a predicted macroblock, the H.263
+   prediction `pred_spec` from the reference with the vector of its 8x8 luma block (chroma: the vector derived from the sum of
+   the four), and zero for a sample of an intra macroblock; vectors, types and coefficient blocks are those `pure_loop` computes
+   from the field values (median prediction, wrap, dequantisation, placement: the theorems above and in C02 / C12). *)
+Theorem C03_predicted_picture : forall o last rp running0 r0 hdr fmt w h fms rest pos st',
+  let v1 := sorenson o && (match version hdr with Some 1 => true | _ => false end) in
+  let running := (if has_plusptype hdr && has_opptype hdr then options hdr
+                  else if has_plusptype hdr then Z.lor (Z.ldiff (options hdr) opptype_options) (Z.land running0 opptype_options)
+                  else Z.lor (Z.ldiff (Z.ldiff (options hdr) opptype_options) mpptype_options) (Z.land running0 (Z.lor opptype_options mpptype_options))) in
+  let mpl := (w + 15) / 16 in let mbh := (h + 15) / 16 in let levw := mpl * 16 in let levh := mbh * 16 in
+  let np := mkDecoded hdr fmt (new_plane w h) (new_plane ((w + 1) / 2) ((h + 1) / 2)) (new_plane ((w + 1) / 2) ((h + 1) / 2)) ((w + 1) / 2) in
+  let st0 := mkLoop (mkReader (enc_fulls false v1 fms ++ rest) pos) (quantizer hdr) [] []
+                    (repeatZ DctZero (levw * levh / 64)) (repeatZ DctZero (levw * levh / 4 / 64)) (repeatZ DctZero (levw * levh / 4 / 64)) in
+  let items := combine (l_types st') (l_pvs st') in
+  decode_picture o (match last with Some p => Some (d_header p) | None => None end) r0 = Ok (Some hdr, mkReader (enc_fulls false v1 fms ++ rest) pos) ->
+  (picture_type hdr = PFrame \/ picture_type hdr = DisposablePFrame) -> format hdr = Some fmt -> into_width_and_height fmt = Some (w, h) -> 1 <= w -> 1 <= h ->
+  simple_picture hdr running ->
+  into_width_and_height (d_format rp) = Some (w, h) -> plane_ok w h (d_luma rp) ->
+  plane_ok ((w + 1) / 2) ((h + 1) / 2) (d_cb rp) -> plane_ok ((w + 1) / 2) ((h + 1) / 2) (d_cr rp) -> d_chroma_w rp = (w + 1) / 2 ->
+  Forall (wf_full false v1) fms -> loop_ok fms 0 (mpl * mbh) ->
+  pure_loop np running mpl levw fms st0 = Ok st' ->
+  exists pic pos',
+    reconstruct o last (Some rp) running0 r0 = Ok (pic, mkReader rest pos') /\
+    d_header pic = hdr /\ plane_ok w h (d_luma pic) /\ plane_ok ((w + 1) / 2) ((h + 1) / 2) (d_cb pic) /\ plane_ok ((w + 1) / 2) ((h + 1) / 2) (d_cr pic) /\
+    (forall x y, 0 <= x < w -> 0 <= y < h ->
+       at_ (d_luma pic) x y = add_val (block_of (l_luma st') (mpl * 2) x y) (x mod 8) (y mod 8)
+                                (luma_after w h mpl rp items 0 (new_plane w h) x y)) /\
+    (forall x y, 0 <= x < (w + 1) / 2 -> 0 <= y < (h + 1) / 2 ->
+       at_ (d_cb pic) x y = add_val (block_of (l_cb st') mpl x y) (x mod 8) (y mod 8)
+                              (chroma_after w h mpl (d_cb rp) items 0 (new_plane ((w + 1) / 2) ((h + 1) / 2)) x y) /\
+       at_ (d_cr pic) x y = add_val (block_of (l_cr st') mpl x y) (x mod 8) (y mod 8)
+                              (chroma_after w h mpl (d_cr rp) items 0 (new_plane ((w + 1) / 2) ((h + 1) / 2)) x y)).
+Proof. exact reconstruct_predicted. Qed.
+
 Print Assumptions C03_vector_wrap.
+Print Assumptions C03_predicted_picture.
 Print Assumptions C03_picture_body_roundtrip.
 Print Assumptions C03_zero_vector_copies.
 Print Assumptions C03_block_prediction.
